@@ -129,6 +129,10 @@ def violations_of(c):
         if alloc > ALLOC_SLACK + 4 * recv:
             out.append((f"Transport raw SASL response read: {alloc} bytes allocated (runtime.MemStats.TotalAlloc) for a response of which "
                         f"{recv} bytes arrived (announced length {a['prefix']}); bound 1 MiB + 4 x received", "group:rawread-alloc"))
+    # 0b. a raw response of which fewer bytes arrived than announced is never the broker's answer
+    if a["fkind"] == "rawresp" and a["prefix"] >= 0 and not a["complete"] and r.get("K") in ("ok", "use", "mech"):
+        out.append((f"raw SASL response announcing {a['prefix']} bytes of which {a['npay']} arrived (then {a['end']}) was handed to the mechanism "
+                    f"as the broker's complete answer (outcome {r.get('K')}, expected an EOF / unexpected-EOF / deadline error)", "group:rawread-truncated"))
     # 1. nothing but ApiVersions / SaslHandshake / SaslAuthenticate / raw bytes before the verdict
     seen_v = False
     for t in toks:
@@ -359,3 +363,112 @@ def replay(ctx, payload):
     for what, key in v:
         print("VIOLATES:", what, "" if not key else "[" + key + "]")
     return 1 if v else 0
+
+
+# ----------------------------------------------------------------------------- exposed to C17
+
+def raw_sasl_cut_cases(ctx):
+    """C17's clause on the raw (SaslHandshake v0) SASL exchange: the genuine authentication
+    response of the reference server, cut at EVERY byte position of its frame (4-byte prefix +
+    payload), then the connection is closed or stays silent until the read deadline; PLAIN step 2
+    (empty payload, and a payload padded to 8 bytes), SCRAM-SHA-256 steps 2 and 3, SCRAM-SHA-512
+    step 3; Dialer.DialContext (Conn path) and Transport.RoundTrip (protocol/saslauthenticate
+    RawExchange).  Predicate on the implementation's own output: the call returns an error, the
+    mechanism is handed no challenge from the cut response (the harness wraps the sasl.Mechanism
+    and counts Next calls), the library has closed the connection when it returns, nothing is
+    written afterwards.  Cuts at or after the prefix are also compared with the extracted model
+    (Model/Sasl.v raw_read: announced = payload length, received = cut - 4)."""
+    gobin = go_build_c18()
+    model = L.ocaml_build("c18")
+    stride = ctx.scale(6, 1)
+    rc, out, err, dt = L.sh([gobin, "-seed", str(ctx.seed), "-subset", "rawcut", "-cutstride", str(stride)], timeout=1500)
+    if rc != 0:
+        raise L.Fail("correspondence", "harness cmd/c18 -subset rawcut failed", (out[-1500:] + err[-2500:]))
+    notes = {}
+    for line in err.splitlines():
+        if line.startswith("NOTE "):
+            _, i, rest = line.split(" ", 2)
+            notes[i] = rest
+    cases, not_cut = [], 0
+    for line in out.splitlines():
+        parts = [p.strip() for p in line.split(" | ")]
+        if len(parts) < 4:
+            continue
+        cid, op, args = parts[0].split(" ", 2)
+        meas = dict(x.split("=") for x in parts[3].split())
+        if meas.get("cut") != "true":
+            not_cut += 1
+            continue
+        path, mech, fstep, k, end, pad = args.split(" ")
+        cases.append(dict(id=cid, op=op, args=args, line=parts[0], go=parts[1], feats=parts[2], path=path, mech=mech,
+                          fstep=int(fstep, 16), k=int(k, 16), end=end, pad=int(pad, 16), frame=int(meas["frame"]),
+                          alloc=int(meas["alloc"]), note=notes.get(cid, "")))
+    # the model on the cuts at or after the prefix
+    mlines, mids = [], {}
+    for c in cases:
+        if c["k"] >= 4:
+            mlines.append(f"{c['id']} rawread {c['path']} {c['mech']} right {c['fstep']:x} {c['frame'] - 4:x} {c['k'] - 4:x} {c['end']}")
+    mres = L.run_model(model, "\n".join(mlines) + "\n") if mlines else {}
+    failures, hist, seen = [], {}, set()
+    n_model = 0
+
+    def add(layer, what, c, model_out=None):
+        inp = dict(case=c["line"], go=c["go"], model=model_out, seed=ctx.seed, frame=c["frame"],
+                   replay="build/bin/c18 -seed %d -case '%s %s'" % (ctx.seed, c["op"], c["args"]), note=c["note"][:400]) if layer == "property" else None
+        failures.append(dict(layer=layer, what=what, input=inp,
+                             detail=json.dumps(dict(case=c["line"], go=c["go"], model=model_out, frame=c["frame"], note=c["note"][:400]))))
+
+    for c in cases:
+        for f in c["feats"].split(","):
+            if f.split("=")[0] in ("path", "mech", "fstep", "end", "pad", "cut"):
+                hist["sasl-raw:" + f] = hist.get("sasl-raw:" + f, 0) + 1
+        seen.add(c["args"])
+        where = f"raw SASL response ({c['mech']} step {c['fstep']}, {'Conn' if c['path'] == 'd' else 'Transport'} path) cut after {c['k']} of {c['frame']} bytes then {c['end']}"
+        r = parse_result(c["go"])
+        bad = []
+        if r["special"]:
+            if r["special"] == "OOM" and c["path"] == "d":
+                continue
+            bad.append("the client ended in " + r["special"])
+        else:
+            f = dict(x.split("=", 1) for x in c["go"].split(" "))
+            if not r["E"] or f.get("K") in ("ok", "use"):
+                bad.append("no error was returned (the cut response was taken for the broker's complete answer)")
+            if int(f.get("N", "0")) != c["fstep"] - 2:
+                bad.append(f"the mechanism was handed {f.get('N')} challenges, {c['fstep'] - 2} had arrived completely: it was given the truncated message")
+            if r["E"] and not r["C"]:
+                bad.append("the connection was not closed by the library when it returned the error")
+            if any(t.endswith("!") for t in r["toks"]):
+                bad.append("requests were written after the cut: " + ",".join(t for t in r["toks"] if t.endswith("!")))
+        if bad:
+            add("property", where + ": " + "; ".join(bad), c, mres.get(c["id"]))
+            continue
+        if c["k"] >= 4:
+            n_model += 1
+            m = mres.get(c["id"], "").split(" ; ")[0]
+            g = " ".join(x for x in c["go"].split(" ") if not x.startswith("N="))
+            if m != g:
+                add("correspondence", where + ": model and implementation differ although the implementation's output satisfies the property", c, m)
+    # group: one failure per (path, mech, step, what-kind) is enough for the report
+    grouped, keys = [], {}
+    for f in failures:
+        d = json.loads(f["detail"])
+        a = d["case"].split(" ")
+        key = (f["layer"], a[2], a[3], a[4], f["what"].split(": ", 1)[1][:40])
+        if key in keys:
+            keys[key]["n"] += 1
+        else:
+            keys[key] = dict(f=f, n=1)
+            grouped.append(f)
+    for v in keys.values():
+        if v["n"] > 1:
+            v["f"]["what"] += f" ({v['n']} cut positions / endings; first shown)"
+    return dict(evaluations=len(cases), distinct_nontrivial=len(seen), hist=hist,
+                rule="raw SASL (handshake v0) authentication response of the reference PLAIN / SCRAM servers cut at every byte position of its frame, then close (every position) "
+                     f"or silence until the 120 ms read deadline (positions 0..5 and every {stride}th), Conn path and Transport path, real client in child processes; "
+                     "every case is a fault (non-trivial); distinct by case arguments",
+                samples=[c["line"] + " | " + c["go"] + " | frame=%d" % c["frame"] for c in cases[:1] + cases[len(cases) // 2:len(cases) // 2 + 1] + cases[-1:]],
+                failures=grouped[:12],
+                notes=[f"raw SASL cuts: {len(cases)} cuts run, {n_model} compared with the model (cuts inside the 4-byte prefix are judged by the predicate only), "
+                       f"{not_cut} enumerated positions were at or past the end of the frame and dropped"],
+                extra=dict(raw_sasl_cut_evaluations=len(cases), raw_sasl_cut_model_compared=n_model))
